@@ -47,8 +47,9 @@ def make_objective(o, dim):
     return lambda x: f(np.array(x, dtype=float, copy=True, order="C"))
 
 
-def gen_box(rng, dim):
-    style = rng.choice(["sym", "asym", "decimal", "tiny", "wide", "narrow", "sym", "asym"])
+def gen_box(rng, dim, style=None):
+    style0 = rng.choice(["sym", "asym", "decimal", "tiny", "wide", "narrow", "sym", "asym"])
+    style = style or style0
     box = []
     for _ in range(dim):
         if style == "sym":
@@ -204,7 +205,7 @@ def gen_spec(seed, **force):
     rng = random.Random(seed)
     height = force.get("height") or rng.choice([1, 2, 2, 2, 3, 3])
     dim = force.get("dim") or rng.randint(2, 5)
-    box, style = gen_box(rng, dim)
+    box, style = gen_box(rng, dim, force.get("box_style"))
     if "box" in force:
         box, style = force["box"], "forced"
     maximize = force.get("maximize", rng.random() < 0.4)
@@ -228,6 +229,8 @@ def gen_spec(seed, **force):
     if spec["wrappers"] == "cutoff":
         spec["cutoff"] = force.get("cutoff") or rng.choice([15, 40, 90, 200, 450])
         spec["has_cutoff"] = True
+    if force.get("per_level_problems") and spec["wrappers"] in ("none", "counting", "stats") and spec["gsc"]["kind"] != "Precision":
+        spec["level_offsets"] = [0.0] + [rng.choice([0.25, -1.5, 3.0]) for _ in range(height - 1)]
     spec["cap_metaepochs"] = force.get("cap_metaepochs", 14)
     spec["cap_evals"] = force.get("cap_evals", 3000)
     # nbc_local generator needs >= 2 levels below... it iterates levels[:-2] and levels[-2]
@@ -293,8 +296,10 @@ def build(spec, objective_wrapper=None, session=None):
     shared = None
     prec_problem = None
     problems = []
+    offs = spec.get("level_offsets")
     for l in range(spec["height"]):
-        f = objective_wrapper(l, raw) if objective_wrapper else raw
+        raw_l = (lambda x, o=offs[l]: raw(x) + o) if offs else raw     # a different problem per level (multi-accuracy set-ups)
+        f = objective_wrapper(l, raw_l) if objective_wrapper else raw_l
         base = FunctionProblem(f, bounds, spec["maximize"], use_cache=True) if spec["wrappers"] == "cache" else FunctionProblem(f, bounds, spec["maximize"])
         p = base
         w = spec["wrappers"]
